@@ -261,6 +261,15 @@ class State:
         self.sched_sigs = set()
         self.hang = False
         self.fill_n = 0
+        # the fixed shapes are split into 4 groups; a shard works on one group (twin baselines and order-safety checks are
+        # the fixed cost of a shape), the shards of a group slice the group's schedule family between them
+        self.rand_pool = []
+        self.rot = env.shard
+        self.groups = min(4, env.nshards)
+        self.group = env.shard % self.groups
+        self.rank = env.shard // self.groups
+        self.members = len([s for s in range(env.nshards) if s % self.groups == self.group])
+        self.my_shapes = [n for i, n in enumerate(self.shapes) if i % self.groups == self.group]
 
     def twin(self, shape, data_seed):
         key = (shape["name"], data_seed)
@@ -429,11 +438,15 @@ def thread_programs(cl, nthreads, rng):
     """thread i enters through a different member / operation; afterwards a few more calls in random order"""
     calls = all_calls(cl, True)
     heavy = [c for c in calls if c[0] in ("deserialize", "serialize", "serialize_conv") and c[2] == 0]
+    schema = [c for c in calls if c[0] in ("dschema", "sschema")]
     progs = []
     same_dir = rng.random() < 0.6  # most batches: every thread starts in the same direction (shared recursion dictionary)
     first_op = rng.choice(["deserialize", "serialize"])
     for i in range(nthreads):
-        cand = [c for c in heavy if (c[0] == first_op or not same_dir)] or heavy
+        if schema and rng.random() < 0.2:  # schema generation as the very first use (it never waits for an analysis)
+            cand = schema
+        else:
+            cand = [c for c in heavy if (c[0] == first_op or not same_dir)] or heavy
         by_entry = [c for c in cand if c[1] == (i % cl.n_first)] or cand
         first = rng.choice(by_entry)
         rest = rng.sample(calls, min(len(calls), 5))
@@ -562,10 +575,16 @@ def stress(state, workload, n_clusters, yield_p, until):
         seed = rng.randrange(1 << 30)
         brng = random.Random(seed)
         for _ in range(per_batch):
-            if brng.random() < 0.3:
-                shape = S.random_shape(brng, brng.randrange(1 << 20))
+            if brng.random() < (0.2 if env.quick() else 0.3):
+                if not state.rand_pool or (brng.random() < 0.4 and len(state.rand_pool) < (6 if env.quick() else 400)):
+                    state.rand_pool.append(S.random_shape(brng, brng.randrange(1 << 20)))
+                    shape = state.rand_pool[-1]
+                else:
+                    shape = brng.choice(state.rand_pool)
             else:
-                shape = state.shapes[names[(done + len(jobs) + env.shard * 5) % len(names)]]
+                pool = state.my_shapes if env.quick() else names
+                state.rot += 1
+                shape = state.shapes[pool[state.rot % len(pool)]]
             ds = brng.randrange(2 if env.quick() else 6)
             tw = state.twin(shape, ds)
             tw.data_seed = ds
@@ -582,7 +601,8 @@ def stress(state, workload, n_clusters, yield_p, until):
 # ---------------------------------------------------------------------------------------------- (b) systematic schedules
 SCHED_SHAPES = ["mutual2", "mutual3", "self", "tailcycle", "nested", "mutual2list", "unionrec", "convreg", "convlazy", "recconv", "fieldconv", "lazyrec", "validated",
                 "selftree", "gentree", "plain", "generic"]
-OP_PAIRS = [("deserialize", "deserialize"), ("serialize", "serialize"), ("deserialize", "serialize"), ("dschema", "deserialize"), ("serialize_conv", "serialize_conv")]
+OP_PAIRS = [("deserialize", "deserialize"), ("serialize", "serialize"), ("deserialize", "serialize"), ("dschema", "deserialize"), ("sschema", "serialize"),
+            ("dschema", "dschema"), ("serialize_conv", "serialize_conv")]
 
 
 def sched_cases(state):
@@ -596,7 +616,7 @@ def sched_cases(state):
             for oa, ob in OP_PAIRS:
                 if "serialize_conv" in (oa, ob) and not shape.get("lazyrec"):
                     continue
-                if shape.get("no_schema") and "dschema" in (oa, ob):
+                if shape.get("no_schema") and ("dschema" in (oa, ob) or "sschema" in (oa, ob)):
                     continue
                 cases.append((name, ea, eb, oa, ob))
     prim = [c for c in cases if c[3] == c[4] and c[1] != c[2] and c[3] in ("deserialize", "serialize")]
@@ -605,10 +625,15 @@ def sched_cases(state):
 
 
 def prog_for(cl, entry, op):
-    """program of one schedule thread: first use through `entry`, then one call through the next member"""
+    """program of one schedule thread: first use through `entry`, then the next member, then every datum through both
+    (run-time only: cheap, but they are what makes a mis-compiled method visible)"""
     other = (entry + 1) % cl.n_first
     op2 = op if op in ("deserialize", "serialize", "serialize_conv") else "deserialize"
-    return [(op, entry, 0), (op2, other, 0)]
+    prog = [(op, entry, 0), (op2, other, 0)]
+    for e in (entry, other):
+        nd = len(cl.data[e]["valid"]) + (len(cl.data[e]["bad"]) if op2 == "deserialize" else 0)
+        prog += [(op2, e, di) for di in range(1, nd)]
+    return prog
 
 
 def run_two(state, cl, vals, prog_a, prog_b, k, j):
@@ -639,8 +664,9 @@ def run_two(state, cl, vals, prog_a, prog_b, k, j):
 
 
 def solo_events(state, tw, prog_of, entry, op):
+    """solo run of one schedule thread: number of hook events and, per hook site, the index of its first event"""
     cl, vals = state.fresh(tw)
-    pol = Policy("count")
+    pol = Policy("trace")
     state.inj.set_policy(pol)
     try:
         for call in prog_of(cl, entry, op):
@@ -648,7 +674,10 @@ def solo_events(state, tw, prog_of, entry, op):
     finally:
         state.inj.set_policy(None)
     cl.unload()
-    return pol.events
+    first = {}
+    for i, site in enumerate(pol.trace):
+        first.setdefault(site, i + 1)
+    return pol.events, first
 
 
 def one_schedule(state, case, k, j, tw, force_followup=False):
@@ -723,27 +752,46 @@ def systematic(state, budget, until):
             env.count("solo_runs")
         return solo[key]
 
+    prio = {}
     for ci, case in enumerate(prim + rest):
         name, ea, eb, oa, ob = case
+        if name not in state.my_shapes:
+            continue
         primary = ci < len(prim)
         if env.quick() and not primary and h64("case", env.seed, case) % 3:
             continue  # quick tier: one third of the secondary cases, chosen by the seed
         tw = state.twin(state.shapes[name], 0)
         if tw.order_dependent:
             continue
-        ka, kb = K(name, tw, ea, oa), K(name, tw, eb, ob)
-        is_core = name == "mutual2" and (ea, eb) == (0, 1) and oa == ob and oa in ("deserialize", "serialize")
+        (ka, sites), (kb, _) = K(name, tw, ea, oa), K(name, tw, eb, ob)
+        is_core = name == "mutual2" and (ea, eb) == (0, 1) and oa == ob == "deserialize"
+        if not is_core:
+            for site, k in sites.items():  # every hook site of A's solo run is a candidate park point (its first event)
+                prio.setdefault((site, oa), []).append((case, k, None))
         for k in range(1, ka + 2):  # ka + 1: "A finished before its k-th event" belongs to the family
             (core if is_core else plan).append((case, k, None))
             if kb > 4:
                 for q in (1, 2, 3):
                     plan.append((case, k, max(1, (kb * q) // 4)))
-    if env.shard == 0:
+    if state.rank == 0:
         env.count("schedule_family_size", len(core) + len(plan))
-    mine = [p for i, p in enumerate(core) if i % env.nshards == env.shard]
-    prng = random.Random(h64("plan", env.seed))  # same sample in every shard, then sliced
-    idx = prng.sample(range(len(plan)), min(len(plan), max(0, budget - len(mine)) * env.nshards))
-    mine += [plan[i] for i in idx[env.shard :: env.nshards]]
+        env.count("hook_sites_x_ops_in_family", len(prio))
+    mine = [p for i, p in enumerate(core) if i % state.members == state.rank]
+    prng = random.Random(h64("plan", env.seed, state.group))  # same sample in every shard of the group, then sliced
+    left = max(0, budget - len(mine)) * state.members
+    # 60 % of what is left: round robin over the hook sites (every site is a park point in some case before any site gets a
+    # second case), so that rarely executed lazy initialisations get the same attention as the hot visitor lines
+    for site in sorted(prio):
+        prng.shuffle(prio[site])
+    rr, want = [], (left * 3) // 5
+    while len(rr) < want and any(prio.values()):
+        for site in sorted(prio):
+            if prio[site] and len(rr) < want:
+                rr.append(prio[site].pop())
+    idx = prng.sample(range(len(plan)), min(len(plan), left - len(rr)))
+    mixed = rr + [plan[i] for i in idx]
+    prng.shuffle(mixed)
+    mine += mixed[state.rank :: state.members]
     for n, (case, k, j) in enumerate(mine):
         if time.time() > until or state.hang:
             env.count("schedules_skipped_time_cap", len(mine) - n)
